@@ -97,6 +97,27 @@ def _bind_atom(atoms, param, arg, flt):
         atoms[param] = True
 
 
+def _selection_site(ctx):
+    """(function, name of the timestamp in it) where the covering / nearest file is selected: find_closest itself, or the private
+    method its tail hands the found files and the timestamp to (`return self._pick(files, timestamp)`)"""
+    f = ctx.func(FILESET, "FileSet.find_closest")
+    ts = f.params[1]
+    if calls_in(f.node, "argmin") or calls_in(f.node, "argmax"):
+        return f, ts
+    rets = [r_ for r_ in walk_no_nested(f.node) if isinstance(r_, ast.Return) and isinstance(r_.value, ast.Call)
+            and isinstance(r_.value.func, ast.Attribute) and norm(r_.value.func.value) in ("self", "FileSet")]
+    for r_ in reversed(rets):
+        try:
+            h = ctx.func(FILESET, "FileSet." + r_.value.func.attr)
+        except AnalysisError:
+            continue
+        hp = h.params if h.is_static else h.params[1:]
+        for i_, a_ in enumerate(r_.value.args):
+            if norm(a_) == ts and i_ < len(hp) and calls_in(h.node, "argmin"):
+                return h, hp[i_]
+    return f, ts
+
+
 def rule_shortcut(ctx):
     ctx.rule("C16.shortcut", "T1", "exact-name short cut: existing file, not excluded, no filters; only placeholder errors are swallowed")
     f = ctx.func(FILESET, "FileSet.find_closest")
@@ -195,8 +216,7 @@ def rule_window(ctx):
 
 def rule_cover(ctx):
     ctx.rule("C16.cover", "T1+T4", "a covering file (closed containment) is returned before any distance is computed")
-    f = ctx.func(FILESET, "FileSet.find_closest")
-    ts = f.params[1]
+    f, ts = _selection_site(ctx)
     flow = Flow(f)
     loops = [st for st in flow.stmts if isinstance(st, ast.For) and any(isinstance(r, ast.Return) for s in st.body for r in ast.walk(s))]
     if not loops:
@@ -271,8 +291,7 @@ def rule_cover(ctx):
 
 def rule_nearest(ctx):
     ctx.rule("C16.nearest", "T6", "argmin over files of the min over both ends of |times - t|")
-    f = ctx.func(FILESET, "FileSet.find_closest")
-    ts = f.params[1]
+    f, ts = _selection_site(ctx)
     flow = Flow(f)
     am = calls_in(f.node, "argmin")
     if not am:
